@@ -238,7 +238,7 @@ def parse_assumptions(out):
     return results
 
 
-def build_property(pid, extra_targets=()):
+def build_property(pid, extra_targets=(), coqchk=False):
     """A + B1: regenerate Gen, make Props/<pid>.vo, recompile it to read Print Assumptions."""
     info = {'ok': False, 'obligations': 0, 'discharged': 0, 'axioms': [], 'theorems': [], 'failed': [],
             'files': [], 'log': '', 'lint': [], 'gen_ok': True}
@@ -295,6 +295,10 @@ def build_property(pid, extra_targets=()):
                     info['log'] += f'\n[Print Assumptions: {len(printed)} requested, {len(answers)} answers]'
             else:
                 info['failed'].append(prop)
+        if coqchk and info['ok']:
+            # independent re-check of the compiled property file and everything it depends on - inside the SAME critical section as
+            # the build (a check of another source tree running in parallel regenerates coq/Gen and recompiles part of the closure)
+            info['coqchk'] = _run(['coqchk', '-o', '-Q', '.', 'Replicat', f'Replicat.Props.{pid}'], cwd=str(COQ), timeout=1500)
     return info
 
 
@@ -512,7 +516,7 @@ def main(argv):
     t0 = time.time()
     known = load_known()
     ok_native, native_log = build_native()
-    proof = build_property(pid)
+    proof = build_property(pid, coqchk=(tier == 'thorough'))
     log(f'{pid}: proof build ok={proof["ok"]} obligations={proof["obligations"]} discharged={proof["discharged"]} '
         f'axioms={proof["axioms"]} ({time.time() - t0:.1f}s)')
     if not proof['ok']:
@@ -520,8 +524,7 @@ def main(argv):
     coqchk_note = None
     if tier == 'thorough' and proof['ok']:
         # independent re-check of the compiled property file and everything it depends on
-        with CoqLock():
-            rc_chk, out_chk = _run(['coqchk', '-o', '-Q', '.', 'Replicat', f'Replicat.Props.{pid}'], cwd=str(COQ), timeout=1500)
+        rc_chk, out_chk = proof.get('coqchk') or (1, 'coqchk was not run')
         m = re.search(r'\* Axioms:(.*?)\n\s*\n\* Constants', out_chk, re.S)
         ax = ' '.join(m.group(1).split()) if m else '?'
         coqchk_note = f'coqchk -o Replicat.Props.{pid}: ' + ('Modules were successfully checked; axioms: ' + ax if rc_chk == 0 else 'FAILED')
